@@ -5,8 +5,8 @@
       created AND cached —, Header, Headers, Cookie, Body, requestClientIPs) —
       shared by the HTTP decision service and the proxy service,
     - internal/handler/envoyextauth/grpcv3/request_context.go (NewRequestContext,
-      canonicalizeHeaders, Request — REBUILT on every call —, Header, Headers,
-      Cookie, Body, Finalize),
+      canonicalizeHeaders, Request — as pinned REBUILT on every call, cached since
+      fix: b2286d8 —, Header, Headers, Cookie, Body, Finalize),
     - internal/handler/decision/request_context.go Finalize,
       internal/handler/proxy/request_context.go Finalize / rewriteRequest (the
       hand-over of pipeline headers and cookies),
@@ -26,7 +26,8 @@
     Envoy's ext_authz CheckRequest as heimdall's own gRPC tests build it: path
     and query in separate fields, lower-case header names, repeated headers
     joined with "," — cookies with "; " —, the peer in the gRPC metadata
-    x-forwarded-for).
+    x-forwarded-for, the body in the string field, the bytes field or both,
+    [l_pack]).
 
     Oracles (data of a case or Section variables, never axioms): the body
     decoders (contenttype.NewDecoder + Decode, JSON/YAML/form) and rule lookup
@@ -35,7 +36,7 @@
     CanonicalMIMEHeaderKey and net/http's cookie reader/sanitiser are modelled
     here; all of them are compared with the real library on every run. *)
 From HV Require Import Base.Prelude Base.GoUrl.
-From HV Require Import C09.Model.
+From HV Require Import C13.Http.
 Open Scope string_scope.
 
 (* ------------------------------------------------------------------ bytes, header names *)
@@ -429,7 +430,8 @@ Section Oracles.
 
   Inductive add := AddHeader (name value : string) | AddCookie (name value : string).
 
-  Inductive errkind := EAuthn | EAuthz | EArgument | ENoRule | EInternal.
+  (** [ERedirect to]: heimdall.RedirectError set by a redirect error handler (Location = [to]) *)
+  Inductive errkind := EAuthn | EAuthz | EArgument | ENoRule | EInternal | ERedirect (to : string).
 
   (** an arbitrary terminating pipeline: it reads the view through queries,
       emits AddHeaderForUpstream / AddCookieForUpstream calls and ends by
@@ -460,7 +462,34 @@ Section Oracles.
 
   Inductive slashes := SOff | SOn | SNoDecode.
 
-  Record rule := { r_id : string; r_slashes : slashes; r_prog : prog }.
+  (** [r_on_error]: the rule's error pipeline (compositeErrorHandler), run by ruleImpl.Execute when a
+      mechanism of the pipeline fails: it reads the same view; [Fail e'] = the handler replaced the error
+      (SetPipelineError), [Allow] = no handler was applicable, the pipeline's error stays; what it emits
+      is of no consequence (every Finalize returns the pipeline error before anything is handed over) *)
+  Record rule := { r_id : string; r_slashes : slashes; r_prog : prog; r_on_error : option prog }.
+
+  Fixpoint as_handler (e : errkind) (h : prog) : prog :=
+    match h with
+    | Ask q k => Ask q (fun v => as_handler e (k v))
+    | Emit _ h' => as_handler e h'
+    | Allow => Fail e
+    | Fail e' => Fail e'
+    end.
+
+  Fixpoint on_fail (p : prog) (h : errkind -> prog) : prog :=
+    match p with
+    | Ask q k => Ask q (fun v => on_fail (k v) h)
+    | Emit a p' => Emit a (on_fail p' h)
+    | Allow => Allow
+    | Fail e => h e
+    end.
+
+  (** pipeline followed by the error pipeline, as one program *)
+  Definition rule_prog (rl : rule) : prog :=
+    match r_on_error rl with
+    | None => r_prog rl
+    | Some h => on_fail (r_prog rl) (fun e => as_handler e h)
+    end.
 
   (** rules.containsEncodedSlash (since fix: a779db8 both spellings count) *)
   Definition contains_encoded_slash (p : string) : bool := GoUrl.contains "%2F" p || GoUrl.contains "%2f" p.
@@ -553,7 +582,7 @@ Section Oracles.
     match mech_view caches build with
     | inl e => {| o_err := Some e; o_rule := ""; o_adds := [] |}
     | inr (rl, v) =>
-      let '(r, adds) := run_prog (answer a v) (r_prog rl) in
+      let '(r, adds) := run_prog (answer a v) (rule_prog rl) in
       {| o_err := r; o_rule := r_id rl; o_adds := adds |}
     end.
 
@@ -653,6 +682,13 @@ Definition step_prog (st : step) (rest : prog) : prog :=
   | Some c => cond_prog c (items_prog (st_cookie st) (st_items st) rest) rest
   end.
 
+(** redirect error handler: `to` = a constant prefix followed by the echo of one read (or nothing) *)
+Definition redirect_prog (prefix : string) (echo : option query) : prog :=
+  match echo with
+  | None => Fail (ERedirect prefix)
+  | Some q => Ask q (fun v => Fail (ERedirect (prefix ++ render v)))
+  end.
+
 (** anonymous authenticator; optional cel authorizer; finalizer steps *)
 Definition pipeline_prog (authz : option cond) (steps : list step) : prog :=
   let body := fold_right step_prog Allow steps in
@@ -660,3 +696,41 @@ Definition pipeline_prog (authz : option cond) (steps : list step) : prog :=
   | None => body
   | Some c => cond_prog c body (Fail EAuthz)
   end.
+
+(* ------------------------------------------------------------------ the decision service as deployed: behind a trusted proxy *)
+
+(** In its normal deployment the HTTP decision service does not get the request itself: an API
+    gateway, listed in trusted_proxies, describes it through X-Forwarded-Method / -Proto / -Host / -Uri
+    on a carrier request to the decision endpoint.  [tp_*]: that conveyance of a logical request;
+    extractURL / extractMethod (C13/Http.v [view_of]) then rebuild the view from the headers.
+    url.Parse on the X-Forwarded-Uri value is modelled with Base/GoUrl.v: EscapedPath() of the part
+    before "?" and Query().Encode() (ParseQuery, then keys sorted and everything re-escaped) of the rest. *)
+Definition forwarded_uri (L : lreq) : string :=
+  l_rawpath L ++ (if nonempty (l_query L) then "?" ++ l_query L else "").
+
+Definition parse_forwarded_uri (v : string) : option (string * string) :=
+  let '(p, q) := GoUrl.cut_on "?" v in
+  match GoUrl.set_path p with
+  | None => None
+  | Some (path, rp) => Some (GoUrl.escaped_path path rp, GoUrl.values_encode (fst (GoUrl.parse_query q)))
+  end.
+
+Definition tp_carrier_host := "heimdall.internal".
+Definition tp_carrier_path := "/decisions".
+
+Definition tp_conn (L : lreq) : conn :=
+  {| c_peer := l_peer L; c_tls := false; c_method := "GET"; c_host := tp_carrier_host;
+     c_escpath := tp_carrier_path; c_rawquery := "" |}.
+
+Definition tp_headers (L : lreq) : hdrs :=
+  [(XFM, l_method L); (XFP, scheme_of L); (XFH, l_host L); (XFU, forwarded_uri L)].
+
+(** the view of the decision service behind the trusted proxy (the middleware leaves the headers: [strip true]) *)
+Definition view_tp (L : lreq) : view := view_of parse_forwarded_uri (tp_conn L) (strip true (tp_headers L)).
+
+(** the view of a service that gets the request itself (C13's other encodings) *)
+Definition view_direct (L : lreq) : view := view_of (fun _ => None) (http_conn L) (http_hdrs L).
+
+(** what matching and the pipeline read of the URL and the method *)
+Definition url_parts (v : view) : string * string * string * string * string :=
+  (v_method v, v_scheme v, v_host v, v_rawpath v, v_query v).
